@@ -1,6 +1,7 @@
 """C08 - integrate() honours its time, step-size and status contract: static necessary conditions."""
 import ast
 
+import re
 from ..core import AnalysisError, anchor
 from .. import cfront, pyfront
 from ..cfront import walk, strip, callee_name, call_args, render, line_of, qtype, is_assign
@@ -99,11 +100,29 @@ def rule_exit_machine(ctx):
     tu = cfront.load_tu('rebound.c')
     fn = tu.func('reb_check_exit')
     from . import pathcond
-    conds = pathcond.conditions(fn)      # enclosing ifs, else branches (negated) and preceding early exits, in normal form
+    from .. import normal as _normal
+    # reb_check_exit together with helpers split off from it: a helper's statements are reached under the conditions of its
+    # call site plus its own
+    fns = _normal.with_new_helpers(tu, 'reb_check_exit')
+    conds = {}
+    site = {fn['name']: []}
+    for f_ in fns:
+        own = pathcond.conditions(f_)
+        extra = site.get(f_['name'], [])
+        for k_, v_ in own.items():
+            conds[k_] = list(extra) + list(v_)
+        for e_ in walk(cfront.body(f_)):
+            if e_.get('kind') == 'CallExpr' and callee_name(e_) in {g_['name'] for g_ in fns}:
+                site.setdefault(callee_name(e_), list(extra) + list(own.get(id(e_), [])))
+
+    class _Multi(dict):
+        pass
+    allnodes = {'kind': 'CompoundStmt', 'inner': [cfront.body(f_) for f_ in fns]}
+    _orig_body = cfront.body
     n = 0
     samples = []
     # R08.2/R08.3: every assignment to r->dt is under exact_finish_time==1 and preceded by a synchronise in its block
-    for comp in walk(cfront.body(fn)):
+    for comp in walk(allnodes):
         if comp.get('kind') != 'CompoundStmt':
             continue
         seen_sync = False
@@ -125,17 +144,18 @@ def rule_exit_machine(ctx):
     anchor(n >= 1, 'reb_check_exit assigns r->dt on the last-step paths')
     # the user's step size is remembered once, when the last step is entered - not again on the retry path (status already
     # LAST_STEP), where dt_last_done is the shortened step: integrate() would then restore the shortened step as the user's dt
-    for e in walk(cfront.body(fn)):
+    for e in walk(allnodes):
         if is_assign(e) and 'last_full_dt' in render(e['inner'][0]):
             n += 1
             cs = [c.replace(' ', '') for c in conds.get(id(e), [])]
             first_time = any((c.startswith('!(') and 'r.status==REB_STATUS_LAST_STEP' in c and '&&' not in c and '||' not in c)
-                             or ('r.status!=REB_STATUS_LAST_STEP' in c and not c.startswith('!') and '||' not in c) for c in cs)
+                             or ('r.status!=REB_STATUS_LAST_STEP' in c and not c.startswith('!') and '||' not in c)
+                             or (re.match(r'^\(?r\.status==REB_STATUS_(?!LAST_STEP)\w+\)?$', c) is not None) for c in cs)
             if not first_time:
                 ctx.report('R08.2', 'check_exit:last_full_dt:retry', 'src/rebound.c:%s reb_check_exit' % line_of(e),
                            'the step size to restore after the integration is stored on a path that is also taken when the status already is REB_STATUS_LAST_STEP (conditions: %s): on the retry path dt_last_done is the shortened last step, which then replaces the user\'s dt' % cs[-3:])
     # the first shrink stores the previous full step
-    stores = [e for e in walk(cfront.body(fn)) if is_assign(e) and render(e['inner'][0]).replace(' ', '') in ('(*last_full_dt)', '*last_full_dt')]
+    stores = [e for e in walk(allnodes) if is_assign(e) and render(e['inner'][0]).replace(' ', '') in ('(*last_full_dt)', '*last_full_dt')]
     n += 1
     if not stores:
         ctx.report('R08.2', 'check_exit:last_full_dt', 'src/rebound.c reb_check_exit', 'the step size in force before the last (shortened) step is never stored: it cannot be restored afterwards')
@@ -148,7 +168,8 @@ def rule_exit_machine(ctx):
                 ctx.report('R08.2', 'check_exit:last_full_dt:guard', 'src/rebound.c:%s reb_check_exit' % line_of(e), 'last_full_dt is overwritten even when no step was done yet (dt_last_done==0)')
     # exact_finish_time==0: success iff t has reached tmax in the direction of integration
     n += 1
-    txt = [render(x['inner'][0]).replace(' ', '') for x in walk(cfront.body(fn)) if x.get('kind') == 'IfStmt']
+    txt = [render(x).replace(' ', '') for x in walk(allnodes) if x.get('kind') == 'BinaryOperator' and x.get('opcode') in ('>=', '<=')]
+    txt += ['(' + t_ + ')' for t_ in txt]
     if not any(c == '((r.t*dtsign)>=(tmax*dtsign))' for c in txt):
         ctx.report('R08.6', 'check_exit:overshoot', 'src/rebound.c reb_check_exit', 'the test "t has passed tmax" is not direction-aware (t*dtsign >= tmax*dtsign)')
     if not any(c == '(((r.t+r.dt)*dtsign)>=(tmax*dtsign))' for c in txt):
@@ -542,6 +563,8 @@ def rule_direction(ctx):
 
 
 def run(ctx):
+    from . import c01
+    c01.rule_dispatch(ctx)            # R01.1: a switch over r->status that ignores enumerators (paused / single-stepped by a client) without reporting
     rule_direction(ctx)
     rule_exit_scans(ctx)
     rule_time_sums(ctx)
